@@ -2316,6 +2316,13 @@ class Walker:
                                                         and str(root_object(r)[1]).startswith("numpy."))
             if numeric:
                 return r
+        # float(v) of an element of a float buffer built in this walk, or of arithmetic: the same number
+        if fn == ("builtin", "float") and len(args) == 1 and not kwargs:
+            r = args[0]
+            if r[0] in ("bin", "max", "min") or (r[0] == "idx" and root_object(r)[0] == "alloc"
+                                                 and str(root_object(r)[1]).startswith("numpy.")
+                                                 and dict(root_object(r)[3]).get("dtype") in (None, ("mod", "numpy.float64"), ("builtin", "float"))):
+                return r
         # np.float64(0.0) is 0.0
         if fn in (("mod", "numpy.float64"), ("mod", "numpy.double")) and len(args) == 1 and not kwargs and args[0][0] == "const" \
                 and isinstance(args[0][1], (int, float)) and not isinstance(args[0][1], bool):
